@@ -69,6 +69,8 @@ def hand_list():
                     out.append("PUSH %s PUSH %s PUSH %s %s" % (a, b, c, op))
             out += ["PUSH %s SWAP2 %s" % (a, op), "PUSH %s %s" % (a, op), "PUSH %s SWAP1 %s" % (a, op)]
     out.append(" ".join(["DUP1 ADD"] * 21))       # every result feeds both operands of the next operation
+    # constant shifts / powers with an operand of 2^31: the folded value is trivial, the work must not grow with the constant
+    out += ["PUSH 1 PUSH 80000000 SHL", "PUSH 1 PUSH 80000000 SHR", "PUSH 1 PUSH 80000000 SAR", "PUSH 80000000 PUSH 2 EXP", "PUSH 3 PUSH 100000000 SHL"]
     # blocks that are optimized and on which the block checker then raises a bare ValueError (chained loads whose subterm
     # dependences come out in another order in the re-analysed block): the failure has to be contained like any other
     out += ["SLOAD ADDRESS SLOAD DUP2 CALLDATALOAD ADDRESS PUSH 1 PUSH 2 ADD",
